@@ -1,6 +1,7 @@
 """C09 - field validation is sound, complete and atomic (Engine C, in-process message PBT)."""
 from __future__ import annotations
 
+import array
 import ctypes
 import functools
 import math
@@ -20,11 +21,14 @@ RULE = (
     "struct, struct-array: one independent campaign each), a class (56 core MDFs + 5 core structs, a hand-written family "
     "with every validator kind at several widths/lengths, or a class built from a drawn field list with nested structs "
     "and struct arrays), a field reached by a random walk through nested structs/struct-array elements, an assignment "
-    "form (scalar set, whole-array set from list/tuple/bytes/range/ctypes array of any integer or float element type/another "
+    "form (scalar set, whole-array set from list/tuple/bytes/range/ctypes array or array.array of any integer or float element "
+    "type/another "
     "message's array, element, slice with drawn "
     "start/stop/step; element and slice stores go through a fresh attribute access or through a bound view object obtained "
     "earlier: outside any block, outside with a disable block entered and left in between, inside a disable block since left "
-    "normally / by ValueError / by a BaseException, or bound outside and used inside a real block) and a value from boundary sets, the full range, wrong Python types, wrong lengths, or a valid "
+    "normally / by ValueError / by a BaseException, or bound outside and used inside a real block) ; in a third of the whole-array/slice stores the SAME mutable sequence object (list, bytearray, ctypes array, array.array) "
+    "is first stored with valid content - into this or another instance - then mutated in place into the drawn content and "
+    "stored again, the second store being judged) and a value from boundary sets, the full range, wrong Python types, wrong lengths, or a valid "
     "sequence with ONE bad element substituted at a drawn position (neighbours may be NaN/bool/extremes); 1-3 "
     "assignments per message, each checked against a domain model (accepted => in-domain, read-back equal, bytes "
     "outside the field untouched; raised => all bytes unchanged; out-of-domain => raised). An 11th campaign draws "
@@ -32,7 +36,8 @@ RULE = (
     "StopIteration), by a BaseException (KeyboardInterrupt, SystemExit, GeneratorExit, asyncio.CancelledError, a custom "
     "BaseException subclass) or entered in a generator that is suspended inside the block and then closed / dropped, and probes with an "
     "invalid assignment inside every block and after every exit. Non-trivial = an out-of-domain element at a "
-    "non-first position of a sequence, or an out-of-domain store through a view bound inside a since-left disable block, or an "
+    "non-first position of a sequence, or out-of-domain content in a reused, mutated sequence object, or an out-of-domain store "
+    "through a view bound inside a since-left disable block, or an "
     "accepted boundary value, or a disable forest with a block left by "
     "exception; distinct = (kind, element type, form, cause, position class, neighbour class, length class) / "
     "(kind, type, form, boundary classes) / forest signature."
@@ -205,10 +210,12 @@ def judge(fi: FI, form: str, k, value, before_model):
                 exp = list(value[:])
             j.update(verdict="in", expected=exp)
         return j
-    if isinstance(value, (list, tuple, bytes, bytearray, range, str, ctypes.Array) + _BOUND):
-        elems = list(value)  # a ctypes array is judged on the Python values it holds
+    if isinstance(value, (list, tuple, bytes, bytearray, range, str, ctypes.Array, array.array) + _BOUND):
+        elems = list(value)  # a ctypes array / array.array is judged on the Python values it holds
         if isinstance(value, ctypes.Array):
             j["vform"] = "ctypes:" + msgs.CT_CODE.get(value._type_, "?")
+        elif isinstance(value, array.array):
+            j["vform"] = "array.array:" + value.typecode
     else:
         j.update(verdict="out", cause="not-a-sequence")
         return j
@@ -276,6 +283,40 @@ def do_step(root: MessageBase, step: dict, group: str, res: Result, trace: dict)
     fi = msgs.field(ccls, step["f"])
     form, k = step["form"], step.get("k")
     value = dec(step["v"])
+    re_ = step.get("re")
+    if re_ is not None:
+        # the SAME sequence object is stored twice with an in-place mutation in between; the second store is judged
+        obj = dec(re_["first"])
+        if type(obj) is not type(value) or not isinstance(obj, (list, bytearray, ctypes.Array, array.array)):
+            raise HarnessError(f"reused object: {type(obj).__name__} vs {type(value).__name__}")
+        tgt = cobj
+        if re_.get("other"):  # first store into ANOTHER instance of the class
+            tgt, _c2, _b2 = msgs.walk(type(root)(), step["p"])
+        key0 = k if form == "item" else slice(*k) if form == "slice" else None
+        try:
+            if form == "set":
+                setattr(tgt, fi.name, obj)
+            else:
+                getattr(tgt, fi.name)[key0] = obj
+            res.count(f"{group}:reused-object:first-store:accepted")
+        except HarnessError:
+            raise
+        except Exception:
+            res.count(f"{group}:reused-object:first-store:refused")
+        if isinstance(obj, list):
+            obj[:] = list(value)
+        elif isinstance(obj, bytearray):
+            obj[:] = bytes(value)
+        elif isinstance(obj, array.array):
+            if obj.typecode != value.typecode:
+                raise HarnessError("reused array.array: typecode differs")
+            obj[:] = value
+        else:
+            if obj._type_ is not value._type_ or len(obj) != len(value):
+                raise HarnessError("reused ctypes array: type/length differs")
+            for i_, e_ in enumerate(value):
+                obj[i_] = e_
+        value = obj
     before = bytes(root)
     before_model = read = None
     try:
@@ -311,16 +352,25 @@ def do_step(root: MessageBase, step: dict, group: str, res: Result, trace: dict)
         if origin is not None:
             V._VALIDATION_ENABLED.set(True)
     after = bytes(root)
+    if re_ is not None:
+        fc = fc + "@reused-mutated-object"
+        desc += " (the same object was stored before with valid content" + (" into another instance" if re_.get("other") else "") + " and mutated in place)"
     if origin is not None:
         res.count(f"{group}:view:{origin}:{j['verdict']}:{'refused' if raised is not None else 'accepted'}")
         fc = fc + ("@view-bound-inside-left-block" if origin.startswith("inside") else "@view-bound-outside")
         desc += f" through a view bound {origin}"
     # one root-cause bucket for "a view bound inside a since-left disable block does not validate its stores"
-    skipkey = "array-view/bound-inside-left-disable-block/store-not-validated" if (origin or "").startswith("inside") else None
+    skipkey = ("array-view/bound-inside-left-disable-block/store-not-validated"
+               if (origin or "").startswith("inside") and re_ is None else None)
     if origin == "used-inside":
         # the store itself runs inside a real disable block: the property speaks about "validation on" only and no
         # document decides whether such a store is validated (nor how unvalidated values are converted): executed, not judged
         return
+    if re_ is not None:
+        res.count(f"{group}:reused-object:{type(value).__name__.split('_Array_')[0]}:{j['verdict']}:{'refused' if raised is not None else 'accepted'}")
+        if j["verdict"] == "out":
+            res.shape("reuse", fi.kind, fi.code, form, type(value).__name__.split("_Array_")[0], j["cause"], bool(re_.get("other")))
+            res.count("nontrivial:out-of-domain-content-in-a-reused-mutated-sequence-object")
     verdict = j["verdict"]
     res.count(f"{group}:{fc}:{verdict}:{'refused' if raised is not None else 'accepted'}")
     if verdict == "out":
@@ -665,7 +715,10 @@ def _seq_value(draw, ccls: type, fi: FI, L: int, whole: bool):
                                  "ctypes", "ctypes"]))
     if mode == "ctypes":
         if fi.kind in ("iarr", "farr", "bytes"):
-            return draw(_ctypes_array(fi, L))
+            v = draw(_ctypes_array(fi, L))
+            if draw(st.integers(0, 3)) == 0:  # the same content as an array.array
+                return {"arr": v["C"], "v": v["v"]}
+            return v
         mode = "one-bad"
     if mode == "source" and not whole:
         mode = "one-bad"
@@ -723,6 +776,7 @@ def _step(draw, cls: type, kinds: frozenset, prefill: bool = False):
         step["view"] = draw(_VIEW)
     if form == "set":
         step["v"] = draw(_seq_value(ccls, fi, fi.n, True))
+        step = draw(_maybe_reuse(step, fi, fi.n))
     elif form == "item":
         step["k"] = draw(st.integers(-fi.n, fi.n - 1))
         alts = [_elem_in(fi), _elem_in(fi), _elem_bad(fi), _elem_bad(fi)]
@@ -744,6 +798,29 @@ def _step(draw, cls: type, kinds: frozenset, prefill: bool = False):
             L = len(range(*slice(*k).indices(fi.n)))
         step["k"] = k
         step["v"] = draw(_seq_value(ccls, fi, L, False))
+        step = draw(_maybe_reuse(step, fi, L))
+    return step
+
+
+@st.composite
+def _maybe_reuse(draw, step: dict, fi: FI, L: int):
+    """With probability 1/3 turn a whole-array / slice store into: store the same (mutable) object first with valid
+    content of the right length, mutate it in place into the drawn content, store it again (the judged store)."""
+    v = step["v"]
+    if not isinstance(v, dict) or not ({"l", "u", "ba", "C", "arr"} & set(v)) or draw(st.integers(0, 2)) > 0:
+        return step
+    if "u" in v:
+        v = step["v"] = {"l": v["u"]}
+    if "l" in v:
+        first = draw(msgs.seq_in(fi, L))
+        first = first if "l" in first else {"l": first["u"]} if "u" in first else enc(list(dec(first)))
+    elif "ba" in v:
+        first = enc(bytearray(draw(st.binary(min_size=L, max_size=L))))
+    else:
+        tag = "C" if "C" in v else "arr"
+        small = 1.5 if v[tag] in msgs.FLOAT_CODES else draw(st.integers(0, 100))
+        first = {tag: v[tag], "v": [enc(small)] * len(v["v"])}
+    step["re"] = {"first": first, "other": draw(st.booleans())}
     return step
 
 
